@@ -2649,26 +2649,26 @@ MANIFEST = {
     "design_ref": "DESIGN.md 4/C19, 8.19",
 }
 FINDINGS = [
-    {"status": "fixed", "key": "deriv-value:cot(x ^ 2)", "commit": "f909729",
+    {"status": "fixed", "key": "deriv-value:cot(x ^ 2)", "commit": "10bdfb1",
      "what": "deriv of cot(u) lacked the chain-rule factor: D x. cot(x^2) = -(csc(x^2)^2)"},
-    {"status": "fixed", "key": "deriv-value:acot(x)", "commit": "b78aba7",
+    {"status": "fixed", "key": "deriv-value:acot(x)", "commit": "83dd326",
      "what": "deriv of acot(x) evaluated to -1/(1+x)^2 (Python ^ binds weaker than +)"},
-    {"status": "fixed", "key": "interval:imul:[0,1]:(0,1):", "commit": "dc2e2d3",
+    {"status": "fixed", "key": "interval:imul:[0,1]:(0,1):", "commit": "f07c6ba",
      "what": "interval product flags: [0,1]*(0,1) = (0,1) excludes the attained 0; [-1,1]*[-1,1) = [-1,1) excludes the attained 1"},
-    {"status": "fixed", "key": "interval:iinv:[-1,2]::", "commit": "47fc721",
+    {"status": "fixed", "key": "interval:iinv:[-1,2]::", "commit": "2b6bed2",
      "what": "Interval.inverse of an interval with 0 inside returned [1/hi, 1/lo] (bounds 1/x on [-1,2] by [-1,1/2])"},
-    {"status": "fixed", "key": "interval:ipow:[-2,1]::4", "commit": "15caf0d",
+    {"status": "fixed", "key": "interval:ipow:[-2,1]::4", "commit": "2f4ff0d",
      "what": "Interval power with an even exponent other than 2 ignored the sign of the base: [-2,1]^4 = [16,1]"},
-    {"status": "fixed", "key": "normalize-value:sqrt(-2 * x)", "commit": "42d662c",
+    {"status": "fixed", "key": "normalize-value:sqrt(-2 * x)", "commit": "f8fcda5",
      "what": "normalize dropped the coefficient under an even root of a negative-coefficient monomial: sqrt(-2*x) -> sqrt(-x)"},
-    {"status": "fixed", "key": "normalize-value:atan(tan(x))", "commit": "7e0b2a4",
+    {"status": "fixed", "key": "normalize-value:atan(tan(x))", "commit": "0a2107d",
      "what": "normalize rewrote atan(tan(x)) to x without a branch condition"},
     {"status": "fixed", "key": "rule-value:DerivIntExchange:INT x:[0,1]. D a. sin(a * x):exchange derivative and integral",
-     "commit": "f139504",
+     "commit": "8e6bc59",
      "what": "DerivIntExchange on INT x:[a,b]. D t. f swapped the bounds: D t. INT x:[b,a]. f (value negated)"},
-    {"status": "fixed", "key": "bounds:sqrt(x) | x > -1, x <= 4", "commit": "9eaea1c",
+    {"status": "fixed", "key": "bounds:sqrt(x) | x > -1, x <= 4", "commit": "fb1b50f",
      "what": "Interval.sqrt of an interval reaching below zero kept the open flag at 0: sqrt(x) for x in (-1,4] bounded by (0,2]"},
-    {"status": "fixed", "key": "bounds:x ^ y | x >= 1/4, x <= 1/2, y >= 1, y <= 2", "commit": "516b6c7",
+    {"status": "fixed", "key": "bounds:x ^ y | x >= 1/4, x <= 1/2, y >= 1, y <= 2", "commit": "0aa781a",
      "what": "Interval power with an interval exponent used [lo^elo, hi^ehi] also for bases below 1: [1/4,1/2]^[1,2] = [1/4,1/4]"},
     {"status": "known", "key": "normalize-idempotent:second-pass-changes-form-only",
      "what": "normalize is not idempotent: a second pass reorders factors, distributes a rational coefficient or simplifies constants "
